@@ -42,6 +42,8 @@ func main() {
 	case "record":
 		n, _ := strconv.Atoi(os.Args[3])
 		record(os.Args[2], n)
+	case "reexec": // reexec <events-in> <events-out>
+		reexec(os.Args[2], os.Args[3])
 	default:
 		hx.Die("unknown mode %s", os.Args[1])
 	}
@@ -329,5 +331,35 @@ func record(out string, n int) {
 	}
 	w.Close()
 	sum.Nontrivial = len(seen)
+	sum.Print()
+}
+
+func reexec(in, out string) {
+	var sum hx.Summary
+	w := hx.NewWriter(out)
+	hx.ReadNDJSON(in, func(i int, e *event) {
+		switch e.Ev {
+		case "reverse":
+			a, err := dns.ReverseAddr(e.Text.String())
+			e.Ok, e.Arpa = err == nil, hx.FromString(a)
+		case "t2s":
+			e.S = hx.FromString(dns.TimeToString(uint32(e.T[0])<<16 | uint32(e.T[1])))
+		case "s2t":
+			t, err := dns.StringToTime(e.Text.String())
+			e.Ok, e.T = err == nil, limbs(t)
+		case "add":
+			e.R = hx.FromString(dnsutil.AddOrigin(e.S.String(), e.Origin.String()))
+		case "trim":
+			e.R, e.Panic = nil, false
+			if p := hx.Catch(func() { e.R = hx.FromString(dnsutil.TrimDomainName(e.S.String(), e.Origin.String())) }); p != "" {
+				e.Panic = true
+			}
+		default:
+			hx.Die("unknown event %q", e.Ev)
+		}
+		w.Emit(e)
+		sum.Evaluations++
+	})
+	w.Close()
 	sum.Print()
 }
